@@ -15,6 +15,15 @@ from primaite.interface.request import RequestFormat, RequestResponse
 _LOGGER = getLogger(__name__)
 
 
+def _is_hashable(request_key) -> bool:
+    """Whether a request element can be a request name at all (a list or dict inside a request cannot)."""
+    try:
+        hash(request_key)
+    except TypeError:
+        return False
+    return True
+
+
 class RequestPermissionValidator(BaseModel):
     """
     Base class for request validators.
@@ -125,7 +134,7 @@ class RequestManager(BaseModel):
         request_key = request[0]
         request_options = request[1:]
 
-        if request_key not in self.request_types:
+        if not _is_hashable(request_key) or request_key not in self.request_types:
             msg = (
                 f"Request {request} could not be processed because {request_key} is not a valid request name",
                 "within this RequestManager",
@@ -207,7 +216,7 @@ class RequestManager(BaseModel):
         request_key = request[0]
         request_options = request[1:]
 
-        if request_key not in self.request_types:
+        if not _is_hashable(request_key) or request_key not in self.request_types:
             return False
 
         request_type = self.request_types[request_key]
